@@ -2,7 +2,7 @@
 import ast
 import inspect
 
-from ..common import Ctx, U, AnalysisError, annotate, callee_name
+from ..common import Ctx, U, AnalysisError, annotate, callee_name, ret_expr
 from ..frontends import (FRONTENDS, frontend_exec_paths, recv_paths, is_transport_write,
                          TRANSPORT_RECEIVERS, TRANSPORT_WRITES)
 from ..msgtables import registered_classes
@@ -77,9 +77,23 @@ def r3_fc_pairing(ck, cx):
         ck.saw('classes', cls.qn)
         fc = cx.ce.try_ev(ast.Name(id='function_code', ctx=ast.Load()), cls.mod, cls)
         sub = cx.ce.try_ev(ast.Name(id='sub_function_code', ctx=ast.Load()), cls.mod, cls)
-        for node in ast.walk(ex.node):
-            if isinstance(node, ast.Return) and isinstance(node.value, ast.Call) and isinstance(node.value.func, ast.Name):
-                r = cx.idx.lookup(ex.mod, node.value.func.id)
+        # the returned expressions with locals substituted (a response bound to a local first is still that constructor call)
+        rets, seen_r = [], set()
+        try:
+            for p in cx.enum(ex, cls, max_depth=0, max_paths=5000):
+                if p.exit and p.exit[0] == 'exc':
+                    continue
+                annotate(p, heap=False)
+                rv = ret_expr(p)
+                src = next((e.node for e in reversed(p.ev) if e.kind == 'return' and e.frame.fid == 0), None)
+                if rv is not None and (id(src), U(rv)) not in seen_r:
+                    seen_r.add((id(src), U(rv)))
+                    rets.append((src, rv))
+        except AnalysisError:
+            rets = [(nd, nd.value) for nd in ast.walk(ex.node) if isinstance(nd, ast.Return) and nd.value is not None]
+        for node, val in rets:
+            if isinstance(val, ast.Call) and isinstance(val.func, ast.Name):
+                r = cx.idx.lookup(ex.mod, val.func.id)
                 if not r or r[0] != 'class':
                     continue
                 k = r[1]
